@@ -6,13 +6,14 @@ ALL = ["C%02d" % i for i in range(1, 21)]
 
 TB = "Coq 8.16.1 kernel and vm_compute; hand-written Gallina model tied to /repo by the per-run correspondence check (Go harness built -tags verif from the working tree, model evaluated inside Coq on the same inputs); generators and comparison code in tools/; "
 
-CLAIMS = {
- "C17": dict(
-   text="Theorems (coq/props/C17.v, closed under the global context) about an executable model of pkg/io: ReadAll over ANY reader behaviour (all chunk sizes, empty reads, EOF with or after the last bytes) equals one-shot decoding; the decoder accepts exactly the RFC 3629 encodings of scalar values and returns them (round trip + inversion, all lengths); one BOM stripped; invalid input rejected; no silent truncation. The model is tied to the code on every run by differential execution of pkg/io (scripted readers, ByteStream, real files at the 4096 block boundary, LoadFile+Execute) against the model evaluated in Coq, cross-checked with Python's strict codec.",
-   note=TB + "Go's unicode/utf8.DecodeRune/FullRune are restated in Gallina (validated by the differential run, not verified); OS file reads are modelled as an arbitrary sequence of chunks.",
-   technique="Coq proof (induction over byte strings and read scripts) + model/implementation correspondence by vm_compute",
-   design="5/C17"),
-}
+import importlib, sys
+sys.path.insert(0, os.path.join(HERE, "tools"))
+CLAIMS = {}
+for pid in ALL:
+    if os.path.exists(os.path.join(HERE, "tools", "props", pid.lower() + ".py")):
+        m = importlib.import_module("props." + pid.lower())
+        if getattr(m, "CLAIM", None):
+            CLAIMS[pid] = m.CLAIM
 
 def main():
     checks = []
